@@ -261,3 +261,22 @@ Example C12_ex_meta_gates_from_source :
     = MetaGenProofs.GateIgnored.
 Proof. repeat split; vm_compute; reflexivity. Qed.
 (* ==== end of block (unit meta) ==== *)
+
+(* ==== unknown events from source (unit dispatch) ==== *)
+(* See the block of the same name in Properties_C18.v.  Whatever DecodeDefs / MarkDefs decode as a bad event - unknown
+   category or value for the model, no table entry, wrong payload size, a non-jumbo type-create event - is refused by the
+   dispatch code as generated from the source (model_<m>_event of the event's model, the model enabled), and refused
+   without dereferencing NULL: the class "unknown event" of C12_unknown_event_never_ok is a fact about the C. *)
+From OV Require Emu.DispatchPre Emu.TaskEvPre Gen.Dispatch_gen Proofs.DispatchProofs Proofs.GuardsProofs.
+Theorem C12_unknown_event_from_source : forall sx en marks who th me jumbo aux st m c v p,
+  let cs := DecodeDefs.mk_chans en ++ marks in
+  nth_error (EmuCoreDefs.threads st) who = Some th -> nth_error (EmuCoreDefs.s_threads sx) who = Some me ->
+  EmuCoreDefs.s_chans sx = cs ->
+  In m DispatchProofs.all_models -> DecodeDefs.memz m en = true -> (m = DecodeDefs.M_OVNI -> GuardsProofs.GInv sx st) ->
+  (exists w, MarkDefs.decode_all en cs m c v p jumbo aux = EmuCoreDefs.EvBad w) ->
+  let E := {| DispatchPre.d_te := {| TaskEvPre.te_sx := sx; TaskEvPre.te_cs := cs |}; DispatchPre.d_jumbo := jumbo; DispatchPre.d_aux := aux |} in
+  exists e', DispatchProofs.gen_event m (DispatchProofs.mk who m c v p) E (DispatchProofs.W st []) = EmuCoreDefs.Err e' /\
+             e' <> DispatchPre.E_TRAP.
+Proof. exact DispatchProofs.bad_refused. Qed.
+Print Assumptions C12_unknown_event_from_source.
+(* ==== end of block (unit dispatch) ==== *)
